@@ -1141,6 +1141,10 @@ func (m *repoManager) newRepo(alias, description string, assign *dvid.UUID, pass
 		return nil, err
 	}
 
+	// set before the repo becomes reachable by other requests
+	r.alias = alias
+	r.description = description
+
 	m.repoMutex.Lock()
 	m.repos[uuid] = r
 	m.repoMutex.Unlock()
@@ -1153,9 +1157,6 @@ func (m *repoManager) newRepo(alias, description string, assign *dvid.UUID, pass
 	m.branchMutex.Lock()
 	m.branchToUUID[string(uuid)+"master"] = uuid
 	m.branchMutex.Unlock()
-
-	r.alias = alias
-	r.description = description
 
 	if err := r.save(); err != nil {
 		return r, err
